@@ -206,7 +206,7 @@ def cases(ctx):
     table = ops()
     per = 12 if not thorough else 120
     for name in sorted(table):
-        for i in range(per * (8 if name in ('nfa_union', 'nfa_repetition', 'nfa_concatenation') else 1)):
+        for i in range(per * (8 if name in ('nfa_union', 'nfa_repetition', 'nfa_concatenation') else 5 if name.startswith('dfa_') else 1)):
             spec = make_args(rng, table[name][0])
             seed = rng.randrange(1 << 30)
             if not thorough or ctx.mine(i):
